@@ -22,12 +22,12 @@ var vc05Prefix = map[string][]string{
 	"redirect": {"user", "redirect"}, "s2s": {"s2s", "nonce"}, "jti": {"nonceonce"},
 }
 
-func vc05Store(b *VerifC05Backend, scn *VerifC05Scn, kind string) SessionStore {
-	return b.DB.GetStore(time.Duration(scn.TTL[kind])*time.Second, vc05Prefix[kind]...)
+func vc05Store(db SessionDatabase, scn *VerifC05Scn, kind string) SessionStore {
+	return db.GetStore(time.Duration(scn.TTL[kind])*time.Second, vc05Prefix[kind]...)
 }
 
-func vc05Consumer(b *VerifC05Backend, scn *VerifC05Scn, r VerifC05Req) func() string {
-	st := func() SessionStore { return vc05Store(b, scn, r.Kind) }
+func vc05Consumer(db SessionDatabase, scn *VerifC05Scn, r VerifC05Req) func() string {
+	st := func() SessionStore { return vc05Store(db, scn, r.Kind) }
 	check := func(v string) string {
 		if v != r.Want {
 			return "mismatch"
@@ -115,13 +115,13 @@ func vc05StorageLevel(b *VerifC05Backend, scn *VerifC05Scn) ([]func() string, er
 		} else if i.Kind == "jti" {
 			v = struct{}{}
 		}
-		if err := vc05Store(b, scn, i.Kind).Put(i.ID, v); err != nil {
+		if err := vc05Store(b.DB, scn, i.Kind).Put(i.ID, v); err != nil {
 			return nil, err
 		}
 	}
 	var fns []func() string
-	for _, r := range scn.Threads {
-		fns = append(fns, vc05Consumer(b, scn, r))
+	for i, r := range scn.Threads {
+		fns = append(fns, vc05Consumer(b.DBFor(i), scn, r))
 	}
 	return fns, nil
 }
@@ -224,6 +224,15 @@ func TestVerifC05(t *testing.T) {
 		// two different secrets do not disturb each other
 		other := vc05Variants(k, "s2")[0]
 		add(vc05Scn(k+"-2-distinct", "mem", false, append([]VerifC05Init{{Kind: k, ID: "s2", Val: "clientA"}}, init...), vs[0], other))
+	}
+	// several nodes sharing one redis: every thread is served by its own node (own in-process mutex)
+	for _, k := range kinds {
+		vs := vc05Variants(k, "s1")
+		init := []VerifC05Init{{Kind: k, ID: "s1", Val: "clientA"}}
+		if k == "s2s" || k == "jti" {
+			init = nil
+		}
+		add(vc05Scn(k+"-2-multinode", "redis-multinode", false, init, vs[0], vs[0]))
 	}
 	// mixed kinds presenting the same id (different namespaces)
 	add(vc05Scn("mixed-2", "mem", false, []VerifC05Init{{Kind: "code", ID: "s1", Val: "clientA"}}, vc05Variants("code", "s1")[0], vc05Variants("s2s", "s1")[0]))
